@@ -209,6 +209,9 @@ func (x Extents) Add(fh string, off, n int) {
 
 func DumpAPI(api API, who string) (d *Dump) { return DumpAPIx(api, who, nil) }
 
+// DumpTolerantShort, when set and true, lets a dump accept a short READ (see above).
+var DumpTolerantShort func() bool
+
 func DumpAPIx(api API, who string, hint Extents) (d *Dump) {
 	d = &Dump{Ev: "dump", Who: who, OK: true, Objs: []DObj{}}
 	defer func() {
@@ -258,6 +261,11 @@ func DumpAPIx(api API, who string, hint Extents) (d *Dump) {
 					}
 					l := RunsLen(r.RData)
 					if l == 0 {
+						if DumpTolerantShort != nil && DumpTolerantShort() {
+							// nearly full disk: a READ that has to materialise a hole may come up short;
+							// compare what could be read
+							n = pos - off
+						}
 						break
 					}
 					got = append(got, r.RData...)
